@@ -394,8 +394,15 @@ def chk_order(case, acc, seed):
     opd = rm.generic_real(shape, seed, tag=22, lo=-0.2, hi=0.2) * WL
     w = lentil.Wavefront(WL) * lentil.Pupil(amplitude=amp.copy(), opd=opd.copy(), pixelscale=op.DX, focal_length=z)
     try:
+        made = {}
         for n in names:
-            w = w * make_elem(n)
+            if case.get('same_object'):
+                # double pass: the SAME element object met again (one object per name), not an equal copy
+                if n not in made:
+                    made[n] = make_elem(n)
+                w = w * made[n]
+            else:
+                w = w * make_elem(n)
         got = [tuple(float(np.ravel(v)[0]) if np.size(v) == 1 else v for v in
                      f.shift(z=z, wavelength=WL, pixelscale=du, oversample=os_, indexing='xy')) for f in w.data]
     except Exception as e:
@@ -583,6 +590,9 @@ def t_misc(arg, acc):
         # repeated elements (multisets)
         for b in names:
             chk_order({'kind': 'order', 'elems': [first, b, first]}, acc, seed)
+            chk_order({'kind': 'order', 'elems': [first, b, first], 'same_object': True}, acc, seed)
+            chk_order({'kind': 'order', 'elems': [first, first, b, b], 'same_object': True}, acc, seed)
+        acc.cls('order:same-object')
     elif what == 'hist':
         depth = 3 if tier == 'quick' else 4
         for aperture in ('mono', 'seg2'):
@@ -622,7 +632,7 @@ def run(tier, seed, acc, procs=None):
                         'the window may be displaced by any integer vector within one sample of the exact shift (no rounding policy)',
                         'dispersive displacements: tolerance 1e-6 relative (the numeric root finder own accuracy)'],
         'require': {'rep:split': 100, 'rep:fit_then_tilt': 100, 'rep:fit_plane_behind': 100, 'rep:fit_plane_front': 100, 'rep:opd': 100, 'rep:fit': 100, 'rep:tilt_after': 100, 'rep:wavefront': 100, 'nonsquare-du': 500, 'square': 500,
-                    'beyond-output': 100, 'nonempty': 1000, 'fit': 100, 'orderings': 50, 'histories': 100},
+                    'beyond-output': 100, 'nonempty': 1000, 'fit': 100, 'orderings': 50, 'histories': 100, 'order:same-object': 5},
     }
 
 
